@@ -63,6 +63,7 @@ package asn1parser
 //@   loop 1 invariant[C06] forall a int :: {elem(bytesToAdd, a)} elem(bytesToAdd, a) == old(elem(bytesToAdd, a))
 
 //@ func ReadExpectedBytesRecursive
+//@   errors_propagated
 //@   props C07
 //@   requires readerOK(reader) && byteArray != nil
 //@   requires 0 <= currentPosition && currentPosition <= byteSize && len(*byteArray) == byteSize
@@ -76,6 +77,7 @@ package asn1parser
 //@   ensures pos(reader) >= old(pos(reader))
 
 //@ func ReadExpectedBytes
+//@   errors_propagated
 //@   props C07
 //@   requires readerOK(reader)
 //@   requires nonneg: byteSize >= 0
@@ -89,6 +91,7 @@ package asn1parser
 //@ dead PeekExpectedBytes return3
 
 //@ func PeekExpectedBytes
+//@   errors_propagated
 //@   props C07
 //@   requires readerOK(reader)
 //@   requires 0 <= byteSize && 0 <= offset
@@ -187,11 +190,13 @@ package asn1parser
 //@   ensures[C06] header: err == nil ==> ret.Tag == at(reader, offset) && ret.Length.LengthSize == derLenSize(reader, offset + 1) && (ret.Length.LengthSize <= 5 ==> ret.Length.Length == derLen(reader, offset + 1))
 
 //@ func ExpectTag
+//@   validator
 //@   props C07
 //@   pure
 //@   ensures (err == nil) == (expectedTag == tag)
 
 //@ func ExpectLengthNotGreater
+//@   validator
 //@   props C07
 //@   requires expectedLength != nil && length != nil
 //@   pure
@@ -238,6 +243,7 @@ package asn1parser
 // ---- element readers
 
 //@ func ReadTVLBytesWithLimit
+//@   errors_propagated
 //@   props C07
 //@   requires readerOK(reader)
 //@   requires 0 <= tagLength.Length.Length && 1 <= tagLength.Length.LengthSize && tagLength.Length.LengthSize <= 16
@@ -248,6 +254,7 @@ package asn1parser
 //@   ensures pos(reader) >= old(pos(reader))
 
 //@ func ReadStruct
+//@   validator
 //@   props C07 C06
 //@   requires readerOK(reader)
 //@   requires target_is_not_the_reader: payload(value) != payload(reader) && payload(value) != sid(reader)
@@ -287,6 +294,7 @@ package asn1parser
 //@   ensures pos(reader) >= old(pos(reader))
 
 //@ func ParseUTCTime
+//@   validator
 //@   props C07
 //@   pure
 //@   ensures err == nil ==> ret != nil
